@@ -13,6 +13,7 @@ from ..run import Outcome
 
 ID = "C15"
 BUDGET = {"quick": 20000, "thorough": 200000}
+FUZZ = {"thorough": 4000}  # coverage-guided stage: libFuzzer runs per worker (x16), see vk/fuzz.py
 RULE = (
     "Hypothesis: preference intervals over 1-7 candidates (supports as exact rationals spanning "
     "1e-6..1e3, exact zeros), cohesion / proportion vectors in the open interval and at its ends, "
@@ -53,7 +54,10 @@ def strategy(tier):
 
 def close(x, want):
     want = Fraction(want)
-    x = Fraction(x)
+    try:
+        x = Fraction(x)
+    except (ValueError, OverflowError):  # nan / inf is never the defined value
+        return False
     return abs(x - want) <= Fraction(1, 10**9) * max(abs(want), Fraction(1, 10**300))
 
 
